@@ -19,7 +19,7 @@ class C17(Check):
         n = 4 if tier == 'thorough' else 3
         return [
             tcpcl_models.adversary_model('MC_adv', n, timeout=3000,
-                                         note='every sequence of <= %d messages from a 14-message catalogue (legal and '
+                                         note='every sequence of <= %d messages from a 15-message catalogue (legal and '
                                               'out-of-place) against a victim with one own 2-segment transfer' % n),
             tcpcl_models.adversary_model('MC_adv_dev', 3, dev='{"unknown_type_wedges"}', expect='violation',
                                          note='the code\'s treatment of an unknown message type must violate C17'),
@@ -27,7 +27,7 @@ class C17(Check):
 
     def rule(self):
         return ('scripts = (moves before the contact header, moves between contact header and SESS_INIT, moves in '
-                'session) over 26 adversarial/legal moves; all single moves and all ordered pairs of the 17 in-session '
+                'session) over 28 adversarial/legal moves; all single moves and all ordered pairs of the 19 in-session '
                 'moves (thorough: all triples) for both victim roles, plus random scripts of 3..8 moves; the victim '
                 'runs 1-2 own multi-segment transfers meanwhile; distinct = distinct scripts')
 
